@@ -286,7 +286,7 @@ Proof. apply is_prefix_spec. exists (skipn n l). symmetry. apply firstn_skipn. Q
 (* central theorem on typed operations: every decodable input is well-formed, there is no known-finding class *)
 Theorem prop_op_of_model : forall x, prop_op x (run_op x) = true.
 Proof.
-  intros [codec level flush cs p [|]|cmd rule ae cenc has_cl level flush body]; cbn [prop_op run_op].
+  intros [codec level flush cs p [|]|cmd rule ae cenc has_cl level flush body|cmd quality flush ae cenc has_cl body]; cbn [prop_op run_op].
   - unfold err_delivered. rewrite is_prefix_firstn. reflexivity.
   - rewrite bytes_eqb_refl. reflexivity.
   - unfold handler, rule_matches. rewrite bytes_eqb_refl.
@@ -296,6 +296,15 @@ Proof.
     destruct (cmd =? 0) eqn:C0; destruct (cmd =? 1) eqn:C1;
     cbn; rewrite ?bytes_eqb_refl, ?G, ?B, ?E1, ?E2, ?R1, ?R3, ?C0, ?C1; cbn; try reflexivity;
     try (apply Z.eqb_eq in C0; apply Z.eqb_eq in C1; lia).
+  - unfold load_handler, handler, action_ok, cmd_id. rewrite bytes_eqb_refl.
+    destruct (bytes_eqb cmd CMD_GZIP) eqn:CG; [apply bytes_eqb_eq in CG; subst cmd|];
+    [|destruct (bytes_eqb cmd CMD_BROTLI) eqn:CB; [apply bytes_eqb_eq in CB; subst cmd|]];
+    cbn [andb orb];
+    destruct (has_token ae GZIP) eqn:G; destruct (has_token ae BR) eqn:B;
+    destruct (bytes_eqb cenc []) eqn:E1; destruct (bytes_eqb cenc IDENTITY) eqn:E2; destruct has_cl;
+    repeat match goal with |- context [?a <=? ?b] => destruct (a <=? b) end;
+    cbn; rewrite ?bytes_eqb_refl, ?G, ?B, ?E1, ?E2; cbn; try reflexivity;
+    repeat match goal with |- context [eq_fold cmd ?x] => destruct (eq_fold cmd x) end; reflexivity.
 Qed.
 Theorem prop_C54_of_model : forall i, wf_C54 i = true -> kf_C54 i = 0 -> prop_C54 i (run_C54 i) = true.
 Proof.
